@@ -126,10 +126,10 @@ PROPS = {
         level='proof', units=[('V', 'V-ENC', 'v_enc'), ('V', 'V-ENCNEW', 'v_encnew')],
         explanation='repair_packets(start, n) extracted verbatim: for all K <= 56403, start, n with K + start + n <= 2^24: exactly n packets, packet i == repair_packet_spec(encoder, start + i) '
                     '(block number, ESI K+start+i, payload Enc over ISI K\'+start+i); window==singles, overlap agreement, distinct IDs, every ESI < 2^24 producible are lemmas over that contract; '
-                    'get_encoded_packets(r): block by block in order, the K source packets then repair_packets(0, r) (positions given by block_at); Encoder::new numbers block b with b',
+                    'get_encoded_packets(r): block by block in order, the K source packets then repair_packets(0, r) (positions given by block_at); Encoder::new numbers block b with b; source_packets (rule D9: (0..K).map(..).collect() desugared to the loop it denotes) returns K packets, packet i = (block number, ESI i, source symbol i)',
         assumptions=['intermediate_tuple / enc_into / table look-ups are external_body here: deterministic functions of their arguments (their values are decided under C15/C04)',
                      'Verus/Z3 sound'],
-        not_decided=['source_packets itself (iterator map/collect): external with an assumed contract (K packets, ESI i, source symbol i); the bounded Kani harness for it did not finish', 'plan interchangeability rests on generate() being deterministic (C17 assumption)']),
+        not_decided=['plan interchangeability rests on generate() being deterministic (C17 assumption)']),
     'C01': dict(
         level='proof', units=[('V', 'V-DEC', 'v_dec'), ('V', 'V-UNPACK', 'v_unpack'), ('V', 'V-BLOCKS', 'v_blocks'), ('V', 'V-ENCNEW', 'v_encnew')],
         explanation='everything around the solver, for all inputs: the block decoder state is an exact record of the distinct packets received (INV); its answer is answer_spec(state): None below K distinct symbols, '
@@ -156,13 +156,12 @@ PROPS = {
         assumptions=[SOLVER_ASSUMED + ' -- in particular the final answer is independent of the ORDER of repair rows only if the solver is exact', 'derive(Clone) is a structural copy (std)'],
         not_decided=['order independence of the solver result under permutation of repair rows (solver contract)']),
     'C05': dict(
-        level='proof', units=[('V', 'V-PART', 'v_part'), ('V', 'V-BLOCKS', 'v_blocks'), ('V', 'V-ENCNEW', 'v_encnew'), ('V', 'V-UNPACK', 'v_unpack'), ('V', 'V-DEC', 'v_dec'), ('K', 'K-LAYOUT', None)],
+        level='proof', units=[('V', 'V-PART', 'v_part'), ('V', 'V-BLOCKS', 'v_blocks'), ('V', 'V-ENCNEW', 'v_encnew'), ('V', 'V-UNPACK', 'v_unpack'), ('V', 'V-CRSYM', 'v_crsym'), ('V', 'V-ENC', 'v_enc'), ('V', 'V-DEC', 'v_dec'), ('K', 'K-LAYOUT', None)],
         explanation='Partition[I,J] characterised over integers (generic function, all inputs); calculate_block_offsets returns Z contiguous blocks, ZL of KL*T then ZS of KS*T bytes covering exactly Kt*T >= F with less than one symbol of padding; '
                     'Encoder::new builds block encoder b with number b from exactly (object ++ zeros)[start_b..end_b] and a plan for its symbol count (only the tail of the last block reaches the zeros); '
-                    'Decoder::new creates Z block decoders numbered 0..Z-1 with KL/KS symbols and the configured T, N, Al; unpack_sub_blocks writes symbol idx to the positions of the RFC 4.4.1.2 layout for all T, Al, N, K',
+                    'Decoder::new creates Z block decoders numbered 0..Z-1 with KL/KS symbols and the configured T, N, Al; unpack_sub_blocks writes symbol idx to the positions of the RFC 4.4.1.2 layout for all T, Al, N, K; create_symbols (encoder side, V-CRSYM): for all T, Al, N, K and data, K symbols of T bytes, symbol m = concatenation over the sub-blocks sb of block bytes [K*off(sb) + m*bytes(sb), +bytes(sb)) (both branches: N > 1 nested loops, N == 1 chunks), and lemma_unpack_inverts: un-interleaving that symbol restores exactly those block bytes; source_packets: K packets, ESI i, payload = symbol i (V-ENC)',
         assumptions=['valid configuration additionally has T >= 1, Z >= 1, 1 <= N <= T/Al (RFC 4.4.1.2)', 'Verus/Z3 sound'],
-        not_decided=['encoder side create_symbols (sub-block interleaving): iterator chains outside the extraction rules, covered only by the BOUNDED Kani unit K-LAYOUT (4 small concrete configurations, symbolic data)',
-                     'source ESIs of source_packets (iterator chain; bounded harness did not finish)']),
+        not_decided=['V-CRSYM replaces four std constructs by trusted model functions (rule S4: vec![vec![]; n], `for x in &mut v` + extend_from_slice, drain(..).map(Symbol::new).collect(), chunks(n).map(..).collect()); the bounded Kani unit K-LAYOUT runs the unmodified function on 4 small configurations as a cross-check of those models']),
     'C09': dict(
         level='proof', units=[('V', 'V-SLAB', 'v_slab'), ('V', 'V-ENCINTO', 'v_encinto'), ('K', 'K-SLABMEM', None)],
         explanation='for all symbol counts and sizes: SymbolSlab::add_assign / mulassign_scalar / fma / set_reorder and perform_op realise apply_op on the logical symbols (whole view: every other symbol unchanged), '
@@ -196,11 +195,11 @@ PROPS = {
     'C04': dict(
         level='proof', units=[('V', 'V-RNG', 'v_rng'), ('V', 'V-TAB', 'v_tab'), ('V', 'V-ENC', 'v_enc'), ('V', 'V-ENCINTO', 'v_encinto'), ('V', 'V-SLAB', 'v_slab'), ('K', 'K-TAB', None), ('K', 'K-RNG', None), ('K', 'K-ENCIDX', None), ('K', 'K-GF', None)],
         explanation='decided part: Rand, Deg, Tuple equal the RFC definitions for every reachable argument (V-RNG/K-RNG); the Enc index sequence of the decoder-side twin enc_indices equals the RFC for every row and in-range tuple (K-ENCIDX); the encoder-side enc_into xors exactly the intermediate symbols at the RFC 5.3.5.3 walk (b + j*a mod W for j < d, then the first d1 positions of the b1 + k*a1 mod P1 walk with value < P), for ALL K\', tuples and symbol sizes (V-ENCINTO, Verus, unbounded); '
-                    'repair ESI X maps to ISI X + K\' - K and payload Enc over the encoder\'s intermediate symbols, ids as prescribed (V-ENC); D = [0^(S+H), source, 0-padding] (V-SLAB create_d); '
+                    'repair ESI X maps to ISI X + K\' - K and payload Enc over the encoder\'s intermediate symbols, ids as prescribed, source packet i carries source symbol i (V-ENC); D = [0^(S+H), source, 0-padding] (V-SLAB create_d); '
                     'tables equal the pinned transcription and satisfy the RFC structural facts (K-TAB/V-TAB); GF(256) is the RFC field (K-GF). The oracle is an RFC transcription, so a consistent deviation shared by encoder and decoder is caught.',
         assumptions=['pinned tables == RFC 6330', 'V-ENCINTO: termination of the P1 walk not proved (partial correctness); get/add_assign/table look-up contracts assumed there and proved in V-SLAB/K-KERN/V-TAB', SOLVER_ASSUMED],
         not_decided=['that the intermediate symbols are THE solution of the pre-code system (solver) and that generate_constraint_matrix/generate_hdpc_rows build the RFC matrix',
-                     'source packet i carries source symbol i (source_packets uses iterator chains; planned bounded unit)', 'quick tier: enc_indices for d <= 8 only (complete d <= 30 in thorough)']),
+                     'quick tier: enc_indices for d <= 8 only (complete d <= 30 in thorough)']),
     'C16': dict(
         level='proof', units=[('V', 'V-DENSE', 'v_dense'), ('V', 'V-SPARSE', 'v_sparse')],
         explanation='the bit-packed dense matrix against the abstract bit array cell(i, j), for all heights and widths: new (all zero), set, get, swap_rows, swap_columns (rows >= hint), add_assign_rows (row xor), '
